@@ -21,7 +21,7 @@ FLAGS = os.environ.get('VERIF_C12_FLAGS', '011')[:3]
 ASSUMPTIONS = [
     'theorems are about coq/Model/KeyFormat.v (lib_* mirrors keys.get_key_format, check_network_and_key, Key.__init__, '
     'Key.wif, HDKey.__init__, HDKey.from_wif, HDKey.wif and networks.wif_prefix_search / network_by_value / Network.wif_prefix, '
-    'as repaired by fixes/C12-1, C12-2 and C12-3) over the prefix tables regenerated from bitcoinlib/data/networks.json on every run',
+    'as repaired by fixes/C12-1, C12-2, C12-3 and C03-8) over the prefix tables regenerated from bitcoinlib/data/networks.json on every run',
     'network table: the regenerated prefixes_wif rows, WIF version bytes, network names and priorities are proved equal (vm_compute, '
     'Proofs/SpecNetworksGlue.v; theorems prefixes_wif_rows_are_frozen_spec, wif_version_bytes_are_frozen_spec, '
     'network_priorities_are_frozen_spec) to the FROZEN specification coq/Model/SpecNetworks.v (reference-client chain parameters, '
@@ -476,7 +476,7 @@ def gen_sessions(rng, big, nets, pool):
                 ['wif:-:h', 'enc:%s:%s' % (pw, 'd' if i % 3 == 0 else 'x'), 'wif:-:h', 'hex:t:h', 'addr:n:-', 'wif:-:n'])
         session('H', km(i + 1, True, True, n, 'legacy' if n not in full else WTS[i % 3], False, True),
                 ['xprv:-:-:n:h', 'enc:%s:x' % pw, 'xprv:-:-:n:h', 'wif:-:h', 'net:' + other(n), 'enc:%s:x' % pw, 'wif:-:h'])
-    # S7: out-of-range child_index (the serialisation refuses, the field has changed), unknown witness type, odd prefixes
+    # S7: out-of-range child_index (the serialisation refuses, the object is untouched), unknown witness type, odd prefixes
     sec_i = 5
     session('H', km(sec_i, True, True, 'bitcoin', 'segwit', False, True),
             ['x:t:4294967296:-:-:n:h', 'xprv:-:-:n:h', 'wif:-:h', 'x:t:1:-:-:n:h', 'xprv:-:-:n:h'])
@@ -1048,9 +1048,6 @@ def judge_call(f, body, st, new, hd, sec, pubc, pubu, chain, depth, fp, wt, ms):
         allowed['p'] = False
     elif k == 'addr':
         allowed['c'] = new['c']                      # address(compressed=..) is allowed to record the flag
-    elif k == 'x' and f[2] not in ('-', '0'):
-        if new['child'] == int(f[2]):
-            allowed['child'] = new['child']          # child_index=c may stay with the object
     if new != allowed:
         return 'the object\'s fields changed from %s to %s' % (st, new)
     # ---- the answer, from the fields in front of the call
@@ -1084,7 +1081,7 @@ def judge_call(f, body, st, new, hd, sec, pubc, pubu, chain, depth, fp, wt, ms):
             isp, child_a, ptok, wta, msa, imode = ('t' if k == 'xprv' else 'f'), '-', f[1], f[2], f[3], f[4]
         as_priv = st['p'] and isp == 't'
         wt_eff = wt if wta in ('-', 'e') else wta
-        child = st['child'] if child_a in ('-', '0') else int(child_a)
+        child = st['child'] if child_a == '-' else int(child_a)      # child_index=c: that one serialisation only, 0 honoured
         given, pb = pref_bytes(ptok)
         if given and pb:
             if len(pb) != 4:
